@@ -527,6 +527,62 @@ func enumerate(thorough bool) []*def {
 			add("FA:2lines*annolists", polMin, l1, l2)
 		}
 	}
+	// FL: long value lists. Conditions with 6 and 7 alternatives that share their first five (so lines
+	// differ only from the 6th / 7th parameter on), lines that differ only in a later '&&' conjunct, x
+	// annotation {none, 5ms}; every single line and every ordered pair of lines.
+	p5 := []*value{nv("zz"), nv("'a(b'"), nv("zz"), nv("keyword: '('"), nv("zz")} // matches only the name a(b
+	t5 := []*value{tv("s"), tv("s"), tv("s"), tv("s"), tv("s")}                   // matches no subtag
+	with := func(pre []*value, more ...*value) []*value { return append(append([]*value{}, pre...), more...) }
+	tailAll := []*value{nv("hk1"), nv("HK1"), nv("sg"), nv("keyword: hk"), nv("regex: '^hk'"), nv("regex: '('"), nv("foo: x")}
+	tailValid := tailAll[:4]
+	var longConds []*cond
+	for _, not := range []bool{false, true} {
+		for _, a := range tailAll {
+			longConds = append(longConds, &cond{input: "name", not: not, vals: with(p5, a)})
+		}
+		for _, a := range tailValid {
+			for _, b := range tailValid {
+				longConds = append(longConds, &cond{input: "name", not: not, vals: with(p5, a, b)})
+			}
+		}
+		for _, b := range tailAll[5:] {
+			longConds = append(longConds, &cond{input: "name", not: not, vals: with(p5, nv("hk1"), b)})
+		}
+		for _, x := range []*value{tv("s1"), tv("s2")} {
+			longConds = append(longConds, &cond{input: "subtag", not: not, vals: with(t5, x)}, &cond{input: "subtag", not: not, vals: with(t5, tv("s"), x)})
+		}
+	}
+	var ll []*line
+	for _, a := range annos[:2] {
+		for _, c := range longConds {
+			ll = append(ll, &line{conds: []*cond{c}, anno: a})
+		}
+		firsts := []*cond{
+			{input: "name", vals: []*value{nv("keyword: ''")}},
+			{input: "name", not: true, vals: []*value{nv("zz")}},
+			{input: "subtag", vals: []*value{tv("s1")}},
+		}
+		seconds := []*cond{
+			{input: "name", vals: []*value{nv("hk1")}},
+			{input: "name", vals: []*value{nv("sg")}},
+			{input: "subtag", vals: []*value{tv("s2")}},
+			{input: "name", vals: with(p5, nv("hk1"))},
+			{input: "name", vals: with(p5, nv("sg"))},
+		}
+		for _, c1 := range firsts {
+			for _, c2 := range seconds {
+				ll = append(ll, &line{conds: []*cond{c1, c2}, anno: a})
+			}
+		}
+	}
+	for _, l1 := range ll {
+		add("FL:longlists", polMin, l1)
+	}
+	for _, l1 := range ll {
+		for _, l2 := range ll {
+			add("FL:longlists", polMin, l1, l2)
+		}
+	}
 	return defs
 }
 
@@ -684,10 +740,10 @@ func main() {
 
 	// pool size bound per family: the 2-line family is the big one
 	maxPool := 3
-	famPool := map[string]int{"F0": 3, "F1": 3, "FP": 3, "F2": 3, "F3": 2, "FA": 3}
+	famPool := map[string]int{"F0": 3, "F1": 3, "FP": 3, "F2": 3, "F3": 2, "FA": 3, "FL": 2}
 	if r.Thorough() {
 		maxPool = 4
-		famPool = map[string]int{"F0": 4, "F1": 4, "FP": 4, "F2": 3, "F3": 3, "FA": 3}
+		famPool = map[string]int{"F0": 4, "F1": 4, "FP": 4, "F2": 3, "F3": 3, "FA": 3, "FL": 3}
 	}
 	pools := buildPools(maxPool, log)
 	poolsG = pools
@@ -701,8 +757,8 @@ func main() {
 	r.Set("group_definitions", len(defs))
 	r.Rule(fmt.Sprintf("every ordered node pool of <=%d nodes (<=%d for family F2, <=%d for family F3) over %d node kinds (names %q x subtags %q; duplicates by repetition) x every group definition of the families "+
 		"F0 no filter x 16 policies; F1 one line, one condition name()/subtag()/link() with <=2 values over the full value alphabet (exact, keyword:, regex: incl. regexp2-only lookahead and an invalid pattern, unknown key), '!' on/off, x annotation {none, add_latency:5ms, add_latency:x, foo:1, and the two-item lists [5ms,foo:1] [foo:1,5ms] [5ms,x] [x,5ms] [5ms,9ms]}; "+
-		"F2 one line, two conditions over a reduced condition alphabet x single-item annotation; F3 two lines over a reduced line alphabet (single-item annotations); FA two lines over 6 conditions x the full annotation alphabet incl. the two-item lists; FP every policy (5 names, fixed(i) i in -1..4, fixed(x), bare fixed, bogus, fixed(0,1), fixed(k:0), !fixed(0)) x 6 filter shapes. "+
-		"A case is (definition, pool). distinct_nontrivial = number of distinct (definition, reference outcome) pairs — outcome = set of expected error kinds, or ordered member kinds with the line supplying each annotation — over definitions with >=1 filter line or a non-'min' policy and non-empty pools", maxPool, famPool["F2"], famPool["F3"], len(kinds), names, tags))
+		"F2 one line, two conditions over a reduced condition alphabet x single-item annotation; F3 two lines over a reduced line alphabet (single-item annotations); FA two lines over 6 conditions x the full annotation alphabet incl. the two-item lists; FL single lines and ordered pairs of lines over conditions with 6 and 7 alternatives sharing their first five (differing only in the 6th/7th value, valid or invalid) and lines differing only in the second '&&' conjunct, x annotation {none, 5ms}, pools of <=%d nodes; FP every policy (5 names, fixed(i) i in -1..4, fixed(x), bare fixed, bogus, fixed(0,1), fixed(k:0), !fixed(0)) x 6 filter shapes. "+
+		"A case is (definition, pool). distinct_nontrivial = number of distinct (definition, reference outcome) pairs — outcome = set of expected error kinds, or ordered member kinds with the line supplying each annotation — over definitions with >=1 filter line or a non-'min' policy and non-empty pools", maxPool, famPool["F2"], famPool["F3"], len(kinds), names, tags, famPool["FL"]))
 
 	if r.ReplayArg != "" {
 		replay(r, defs, pools)
